@@ -87,7 +87,7 @@ def handle (cmd : String) (args : List Sx) : String :=
       | none => "bad-op"
       | some bufs =>
         match parseEvs sc bufs evs with
-        | some evs => cutsOf evs
+        | some evs => cutsOf sc evs
         | none => "bad-op"
   | "c09.standard", [sc, std, .list [.atom "w", cnt, tot], bufs, evs, bc] =>
     match parseSC sc, parseStd std, cnt.nat?, tot.nat?, bc.nat? with
